@@ -66,6 +66,15 @@ pub(super) fn create_transport_costs(
                     .into());
                 }
 
+                if error_codes.len() != capacity || matrix.travel_times.len() != capacity {
+                    return Err(format!(
+                        "error codes, travel times and distances must have the same length: {}, {} and {capacity}",
+                        error_codes.len(),
+                        matrix.travel_times.len()
+                    )
+                    .into());
+                }
+
                 let mut durations: Vec<Duration> = Vec::with_capacity(capacity);
                 let mut distances: Vec<Distance> = Vec::with_capacity(capacity);
                 let err_fn = |i| move || GenericError::from(format!("invalid matrix index: {i}"));
